@@ -2,9 +2,9 @@ SPECIFICATION Spec
 CONSTANTS
  Conns = {1, 2}
  Fds = {1, 2}
- MaxReload = 2
- MaxAccept = 2
- FixNewSink = TRUE
+ MaxReload = 1
+ MaxAccept = 1
+ FixNewSink = FALSE
  FixCloseOrder = TRUE
  FixCloseLock = TRUE
 INVARIANT Safe
